@@ -321,8 +321,10 @@ class World:
         if fault is None and (pipe.broken or (pipe.eof and not pipe.inbound)):
             fault = "ConnectError"
         if fault:
-            if issubclass(EXC[fault], Exception):
+            if issubclass(EXC[fault], Exception) and not getattr(self, "tls_failure_leaves_open", False):
                 self._close_pipe(pipe)  # all real backends: `except Exception: close(); raise`
+            # (tls_failure_leaves_open: a backend written against the documented interface that does NOT close the stream when its handshake
+            # fails - closing it is then the caller's, i.e. httpcore's, business)
             self._done(op)
             self._raise(fault, op)
         selected = pipe.peer.on_tls(server_hostname, None if alpn is None else list(alpn))
